@@ -1146,7 +1146,7 @@ func areEqualIntervalExpr(query, pattern *sqlparser.IntervalExpr) bool {
 	if !strings.EqualFold(query.Unit, pattern.Unit) {
 		return false
 	}
-	if areEqualExpr(query.Expr, pattern.Expr) {
+	if !areEqualExpr(query.Expr, pattern.Expr) {
 		return false
 	}
 	return true
